@@ -7,6 +7,7 @@ SCOPES = {
     'prepare_with': (4, 0), 'cfg_commit': (5, 0), 'cfg_action': (6, 0), 'cfg_include': (7, 0),
     'cfg_make_wsgi_app': (8, 0), 'cfg_route_prefix': (9, 0), 'cfg_with': (10, 0),
     'exception_view': (11, 0), 'exception_view_reraise': (11, 0), 'subrequest': (12, 0), 'request_context_manual': (13, 0), 'wsgi_call': (14, 0),
+    'cfg_init': (15, 0),
 }
 # where the single failure is injected, per scope (0 = nowhere)
 SITES = {
@@ -26,6 +27,7 @@ SITES = {
     'subrequest': ['none', 'view'],
     'request_context_manual': ['none', 'body'],
     'wsgi_call': ['none', 'view', 'request_factory', 'tween_reraise', 'tween_reraise_mismatch'],
+    'cfg_init': ['none', 'root_factory_dotted'],
 }
 
 
@@ -233,6 +235,12 @@ def run_scope(name, site):
                 if site == 'body':
                     raise Boom()
         return _observe(f)
+    if name == 'cfg_init':
+        # Configurator(...) itself: __init__ -> setup_registry -> commit()
+        from pyramid.config import Configurator
+        if site == 'root_factory_dotted':
+            return _observe(lambda: Configurator(root_factory='harness.c13.scopes.no_such_thing'))
+        return _observe(lambda: Configurator())
     if name == 'cfg_commit':
         c = _config()
 
